@@ -51,6 +51,9 @@ def oracle_conservation(R, tier, seed):
                 if rep == 0:
                     wb = gen.wingbox_surface(mesh, symmetry=(kind != "full"))
                     variants += [("wingbox", wb), ("wingbox+fem_origin-entry", dict(wb, fem_origin=float(rng.choice([0.35, 0.25, 0.5]))))]
+                    # airfoil data whose lower-surface x stations differ from the upper ones (coordinates cropped from an airfoil
+                    # file): every component must take the spar stations from the same array
+                    variants += [("wingbox+lower-stations-differ", dict(wb, data_x_lower=(np.real(gen.WB_LOWER_X) * 1.04 + 0.036).astype(complex)))]
                 for vname, sv in variants:
                     outs, _, _ = core.run_comp(LoadTransfer(surface=sv), {"def_mesh": mesh, "sec_forces": F}, want_J=False)
                     loads = outs["loads"]
